@@ -5,6 +5,8 @@ go 1.26.8
 require (
 	github.com/anishathalye/porcupine v1.3.0
 	github.com/kubewharf/kubegateway v0.0.0
+	k8s.io/apimachinery v0.18.19
+	k8s.io/client-go v0.18.10
 	kgsimhook v0.0.0
 )
 
@@ -98,9 +100,7 @@ require (
 	gopkg.in/yaml.v2 v2.4.0 // indirect
 	k8s.io/api v0.18.10 // indirect
 	k8s.io/apiextensions-apiserver v0.18.10 // indirect
-	k8s.io/apimachinery v0.18.19 // indirect
 	k8s.io/apiserver v0.18.10 // indirect
-	k8s.io/client-go v0.18.10 // indirect
 	k8s.io/cloud-provider v0.18.10 // indirect
 	k8s.io/cluster-bootstrap v0.18.10 // indirect
 	k8s.io/component-base v0.18.10 // indirect
@@ -129,7 +129,6 @@ replace (
 	github.com/kubernetes-incubator/reference-docs => github.com/kubernetes-sigs/reference-docs v0.0.0-20170929004150-fcf65347b256
 	github.com/kubewharf/apiserver-runtime => /repo/staging/src/github.com/kubewharf/apiserver-runtime
 	github.com/kubewharf/kubegateway => /repo
-	kgsimhook => ./simhook
 	github.com/markbates/inflect => github.com/markbates/inflect v1.0.4
 	github.com/onsi/gomega => github.com/onsi/gomega v1.7.0
 	github.com/pkg/errors => github.com/pkg/errors v0.9.1
@@ -169,5 +168,6 @@ replace (
 	k8s.io/sample-apiserver => k8s.io/sample-apiserver v0.18.10
 	k8s.io/system-validators => k8s.io/system-validators v1.0.4
 	k8s.io/utils => k8s.io/utils v0.0.0-20200324210504-a9aa75ae1b89
+	kgsimhook => ./simhook
 	sigs.k8s.io/controller-runtime => sigs.k8s.io/controller-runtime v0.6.0
 )
